@@ -321,6 +321,8 @@ def dispatch(eng, st, body, callee, args):
         raise Unsupported("symbolic int method " + meth)
 
     # ---- formatting / error plumbing: empty bodies
+    if meth == "format_eng":
+        return _o(st, Opaque("String"))
     if meth in OPAQUE_FNS and (T in (None, "Argument", "Arguments", "fmt", "__private", "error", "kind", "String", "str", "Error", "impl:Error", "alloc", "hint", "impl:str", "ToString", "ToOwned", "Location", "impl:Arguments") or Tr in ("AdhocKind", "ToString", "ToOwned", "TraitKind", "BoxedKind") or (T and T.startswith("&"))):
         if meth == "must_use":
             return _o(st, args[0])
